@@ -1,3 +1,5 @@
 //! vkit: shared machinery of the verification harness (see /verif/DESIGN.md §3).
+pub mod clock;
+pub mod fsutil;
 pub mod pool;
 pub mod run;
